@@ -543,4 +543,23 @@ theorem one_claim_per_peer (sv : SigCheck) (h r t : Nat) (vals : Vals) (ops : Li
 example : ((run svSome (new 5 0 2 vals30) [opv 0 bA, .peer 1 bA, opv 1 bA, .peer 2 bA', .peer 1 bA', .peer 1 bA]).peerMaj.map (·.1))
     = [1, 2] := by decide
 
+/-- a peer's first claim for `b` leaves `b`'s bucket present and flagged, keeping the votes and the
+tally the bucket already had (the completeness half: the claim must not wipe what was counted) -/
+theorem peerMaj23_opens_bucket (s : VoteSet) (p : Nat) (b : BlockId)
+    (h : peerLookup p s.peerMaj = none) :
+    ∃ bv, lookup b.key (setPeerMaj23 s p b).1.byBlock = some bv ∧ bv.peerMaj23 = true ∧
+      (∀ old, lookup b.key s.byBlock = some old → bv.votes = old.votes ∧ bv.sum = old.sum) := by
+  unfold setPeerMaj23
+  simp only [h]
+  split
+  · rename_i bv hbv
+    split
+    · rename_i hf
+      exact ⟨bv, hbv, hf, fun old ho => by rw [hbv] at ho; cases ho; exact ⟨rfl, rfl⟩⟩
+    · exact ⟨{ bv with peerMaj23 := true }, lookup_insert_self _ _ _, rfl,
+        fun old ho => by rw [hbv] at ho; cases ho; exact ⟨rfl, rfl⟩⟩
+  · rename_i hn
+    exact ⟨_, lookup_insert_self _ _ _, rfl, fun old ho => by rw [hn] at ho; cases ho⟩
+
+
 end KV.Props.C02
